@@ -318,6 +318,10 @@ func LiteralInfoFromURI(uri string) (*LiteralInfo, error) {
 	relStartIdx := uriIndexes[8]
 	baseUrl := strings.TrimRight(uri[0:relStartIdx], "/")
 	relUrl := uri[relStartIdx:]
+	if baseUrl != "" && !restFHIRServiceBaseURLRegex.MatchString(baseUrl+"/") {
+		// e.g. "http:///Patient/1": nothing is left of the base once the slashes are trimmed
+		return nil, fmt.Errorf("%w: service base url is invalid", ErrInvalidURI)
+	}
 
 	// The REST regexp could be used to identify all the parts of the relative URI,
 	// but easier just to split.
